@@ -209,7 +209,7 @@ Definition do_append (p c : nat) : M unit :=
 Definition do_tappend (p c : nat) : M unit :=
   modify (fun s => let P := getn s p in let k := n_name (getn s c) in
                    setn s p (with_children P (n_list P) (n_idx P) (iset k (iget k (n_tidx P) ++ [c]) (n_tidx P)))).
-(* the two statements of ElementList.insert after the admission check *)
+(* the two statements of ElementList.insert after the acceptance check *)
 Definition do_insert (p : nat) (index : nat) (c : nat) (by_name_index : nat) : M unit :=
   modify (fun s => let P := getn s p in let k := n_name (getn s c) in
                    setn s p (with_children P (insert_at index c (n_list P))
@@ -408,8 +408,8 @@ Definition class_checks (P C : node) : result unit :=
            end
   end.
 
-(* the admission checks of _can_add_child for a child that already points at the element *)
-Definition admission_checks (P C : node) : result unit :=
+(* the acceptance checks of _can_add_child for a child that already points at the element *)
+Definition acceptance_checks (P C : node) : result unit :=
   let mx := match n_name C, n_st P with
             | Some kn, Some s => match repetitions_of s kn with Some (_, m) => m | None => (-1)%Z end
             | _, _ => (-1)%Z
@@ -426,7 +426,7 @@ Definition admission_checks (P C : node) : result unit :=
 Definition append_attached (p c : nat) : M unit :=
   let! P := node_of p in
   let! C := node_of c in
-  lift (admission_checks P C) ;;
+  lift (acceptance_checks P C) ;;
   if oid_eqb (n_parent C) p then do_append p c
   else if oid_eqb (n_tparent C) p then do_tappend p c
   else ret tt.
@@ -514,7 +514,7 @@ Definition insert (p : nat) (index : nat) (c : nat) (by_name_index : nat) : M un
   let! C := node_of c in
   let! v := lift (is_valid_child P C) in
   if negb v then raise (HL7 EChildNotValid) else
-  lift (admission_checks P C) ;;
+  lift (acceptance_checks P C) ;;
   do_insert p index c by_name_index.
 
 Definition finder (P : node) (k : option str) (i : Z) : option nat :=
